@@ -12,6 +12,7 @@
 //!   chr <codepoint> <0|1>         lexerr of `x<c>y` / `x<c>=y`
 //!   cont <hex tail>               lexerr of `x = 1 + \<tail>`
 //!   strlex <hex>                  text over ' " a \ newline, parsed as a module
+//!   softkw <hex line>             first token of `match<line>`: `keyword` / `name` (line over s : ( ) l $)
 //!   parse <hex>                   parse (module), `ok` / `(err Kind off)` absolute offset
 //!   site <rule> <lo> <hi> <hex edited> <hex original>   result for the edited text + ` base=ok|rejected`
 //!   fstr <hex body>               parse `f'<body>'`, offset relative to the body start
@@ -324,6 +325,29 @@ fn handle(ws: &[&str]) -> String {
                 format!("{} base={}", judge("", &t, ""), base)
             }
             _ => bad(),
+        },
+        // softkw <line over s : ( ) l $>: is the head `match` of `match<line>` delivered as keyword or name?
+        ["softkw", t] => match unhex_str(t) {
+            Some(t) => {
+                let mut text = String::from("match");
+                for c in t.chars() {
+                    match c {
+                        's' => text.push_str(" s"),
+                        'l' => text.push_str(" lambda "),
+                        ':' | '(' | ')' | '$' => text.push(c),
+                        _ => return bad(),
+                    }
+                }
+                text.push('\n');
+                let first = guard(|| rustpython_parser::lexer::lex(&text, Mode::Module).next());
+                match first {
+                    Some(Some(Ok((rustpython_parser::Tok::Match, _)))) => "keyword".into(),
+                    Some(Some(Ok((rustpython_parser::Tok::Name { .. }, _)))) => "name".into(),
+                    Some(_) => "other".into(),
+                    None => "(panic)".into(),
+                }
+            }
+            None => bad(),
         },
         ["lexerr", t] => match unhex_str(t) {
             Some(t) => lexerr(&t),
